@@ -13,6 +13,7 @@ are the strings "not found" / "shard unavailable" (the latter read from `cluster
 The model's `sort` parameter is instantiated with "whatever `sortFunc` returned on the success ids".
 -/
 import SemaModel.C17.Model
+import SemaModel.C17.Lemmas
 import SemaModel.Base.BytesLemmas
 import SemaModel.Generated.Curate
 namespace Sema.C17
@@ -153,6 +154,77 @@ theorem C17_tie (sortFunc : {α : Type} → List α → (α → α → Int) → 
     · have hf' : (binarySearch (sorted.map natBE) (natBE id)).2 = false := by simpa using hf
       simp only [hf', Bool.not_false, if_true, Bool.false_eq_true, if_false, List.map_cons, ih']
 
+/-- on 16-byte ids, "sorted under `bytes.Compare`" is "sorted by `natBE`" -/
+theorem Tie.sorted_natBE (l : List Bytes) (hlen : ∀ id ∈ l, id.length = 16)
+    (hsorted : l.Pairwise (fun a b => cmpB a b ≤ 0)) : (l.map natBE).Pairwise (· ≤ ·) := by
+  rw [List.pairwise_map]
+  refine List.Pairwise.imp_of_mem ?_ hsorted
+  intro a b ha hb hab
+  have hl : b.length = a.length := by rw [hlen a ha, hlen b hb]
+  have hnot : ¬ natBE b < natBE a := by
+    intro h
+    have h1 : lexLt b a = true := (lexLt_iff_natBE b a hl).mpr h
+    have h2 : ¬ (lexLt a b = true) := fun c => by
+      have := (lexLt_iff_natBE a b hl.symm).mp c; omega
+    unfold cmpB Go.bytesCompare at hab
+    simp [h1, h2] at hab
+  omega
+
+/-- **`C17_tie` composes with `C17_curate`** (audit: "constant sorter ∉ IsSort").  The sorter `C17_tie`
+instantiates the model with — "whatever `slices.SortFunc` returned on these ids" — is not an `IsSort` (it is a
+constant function), but the specification needs a sorted permutation ON THIS SUCCESS LIST only
+(`curateWith_eq_at`), and that it is whenever `sortFunc` sorts these ids.  Hence, read through `natBE`, the
+definition generated from `cluster/actions.go` computes the list difference with the right message. -/
+theorem C17_tie_curate (sortFunc : {α : Type} → List α → (α → α → Int) → List α) (all succ : List Bytes) (complete : Bool)
+    (hall : ∀ id ∈ all, id.length = 16) (hsucc : ∀ id ∈ succ, id.length = 16)
+    (hperm : (sortFunc succ cmpB).Perm succ) (hsorted : (sortFunc succ cmpB).Pairwise (fun a b => cmpB a b ≤ 0)) :
+    (Gen.Curate.curateFailedPoints sortFunc all succ complete).1.map (fun fp => (natBE fp.Id, fp.Err)) =
+      ((all.map natBE).filter fun i => !(succ.map natBE).contains i).map
+        fun i => (i, msgText (if complete then Msg.notFound else Msg.unavailable)) := by
+  have hlen : ∀ id ∈ sortFunc succ cmpB, id.length = 16 := fun id h => hsucc id (hperm.mem_iff.mp h)
+  rw [C17_tie sortFunc all succ complete hall hlen,
+    curateWith_eq_at (sort := fun _ => (sortFunc succ cmpB).map natBE) (all.map natBE) (succ.map natBE) complete
+      (hperm.map natBE) (Tie.sorted_natBE _ hlen hsorted), List.map_map]
+  rfl
+
+/-- **Go source → generated definition → specification, in one theorem, on the uuids themselves.**  For the
+definition generated from `cluster/actions.go curateFailedPoints`, for EVERY `slices.SortFunc` that returns, on
+these success ids under `bytes.Compare`, a sorted permutation of them (pdqsort does; nothing else is assumed
+about it, in particular not stability), for all requests `all` and success lists `succ` of uuids: the failed
+points are exactly the list difference `all \ succ` — order and multiplicity of `all` kept — each with
+"not found" iff the response was complete. -/
+theorem C17_curate_generated (sortFunc : {α : Type} → List α → (α → α → Int) → List α) (all succ : List Bytes)
+    (complete : Bool) (hall : ∀ id ∈ all, id.length = 16) (hsucc : ∀ id ∈ succ, id.length = 16)
+    (hperm : (sortFunc succ cmpB).Perm succ) (hsorted : (sortFunc succ cmpB).Pairwise (fun a b => cmpB a b ≤ 0)) :
+    (Gen.Curate.curateFailedPoints sortFunc all succ complete).1 =
+      (all.filter fun id => !succ.contains id).map fun id =>
+        ({ Id := id, Err := if complete then "not found" else "shard unavailable" } : Gen.Curate.FailedPoint) := by
+  have hlen : ∀ id ∈ sortFunc succ cmpB, id.length = 16 := fun id h => hsucc id (hperm.mem_iff.mp h)
+  have hsn := Tie.sorted_natBE _ hlen hsorted
+  unfold Gen.Curate.curateFailedPoints
+  simp only [Go.forRange]
+  have hs' : sortFunc succ (fun a b => Go.bytesCompare a b) = sortFunc succ cmpB := rfl
+  have hloop := Tie.forRangeAux_filter (fun id => !(Go.binarySearchFunc (sortFunc succ cmpB) id cmpB).2)
+    (fun id => ({ Id := id, Err := if complete = true then "not found" else "shard unavailable" } : Gen.Curate.FailedPoint)) all 0 []
+  rw [hloop, List.nil_append]
+  congr 1
+  apply List.filter_congr
+  intro id hid
+  -- the library's binary search on the sorted uuids finds `id` iff it is a success id
+  have hb := Tie.binarySearch_eq (sortFunc succ cmpB) id hlen (hall id hid)
+  rw [hb]
+  show (!(binarySearch ((sortFunc succ cmpB).map natBE) (natBE id)).2) = !succ.contains id
+  congr 1
+  have hfound := binarySearch_found hsn (natBE id)
+  have hmem : natBE id ∈ (sortFunc succ cmpB).map natBE ↔ id ∈ succ := by
+    constructor
+    · intro h
+      obtain ⟨b, hb', hab⟩ := List.mem_map.mp h
+      have : b = id := (natBE_eq_iff b id (by rw [hlen b hb', hall id hid])).mp hab
+      exact this ▸ (hperm.mem_iff.mp hb')
+    · intro h; exact List.mem_map.mpr ⟨id, hperm.mem_iff.mpr h, rfl⟩
+  cases hc : succ.contains id <;> cases hb2 : (binarySearch ((sortFunc succ cmpB).map natBE) (natBE id)).2 <;> simp_all
+
 /-- the second component: `slices.SortFunc` sorts the caller's `successIds` in place, so the
 translated function returns that slice too — it is whatever the sort made of it -/
 theorem C17_tie_sorted (sortFunc : {α : Type} → List α → (α → α → Int) → List α) (all succ : List Bytes) (complete : Bool) :
@@ -163,5 +235,15 @@ example :
     let id (b : Nat) : Bytes := List.replicate 15 0 ++ [BitVec.ofNat 8 b]
     (Gen.Curate.curateFailedPoints (fun l cmp => l.foldr (insertBy (fun a b => decide (cmp a b ≤ 0))) []) [id 3, id 1, id 2] [id 2, id 1] true).1.map
       (fun fp => (natBE fp.Id, fp.Err)) = [(3, "not found")] := by decide
+
+/-- non-vacuity of `C17_curate_generated`: insertion sort under `bytes.Compare` is a sorted permutation of
+these success ids (duplicates included), and the generated function returns the list difference -/
+example :
+    let id (b : Nat) : Bytes := List.replicate 15 0 ++ [BitVec.ofNat 8 b]
+    let sf : {α : Type} → List α → (α → α → Int) → List α := fun l cmp => l.foldr (insertBy (fun a b => decide (cmp a b ≤ 0))) []
+    let succ := [id 2, id 1, id 2]
+    (sf succ cmpB).isPerm succ ∧ (sf succ cmpB) = [id 1, id 2, id 2] ∧
+    (Gen.Curate.curateFailedPoints sf [id 3, id 1, id 3, id 2] succ false).1 =
+      [{ Id := id 3, Err := "shard unavailable" }, { Id := id 3, Err := "shard unavailable" }] := by decide
 
 end Sema.C17
